@@ -41,6 +41,8 @@ def _factory():
                     break
             if scope["raw_path"] == b"/slow":
                 await env.sleep(1.0)
+            if scope["raw_path"] == b"/slower":
+                await env.sleep(2.5)
             payload = b"echo:" + scope["raw_path"] + b":" + body
             await send({"type": "http.response.start", "status": 200, "headers": [(b"content-length", str(len(payload)).encode())]})
             await send({"type": "http.response.body", "body": payload, "more_body": False})
@@ -69,7 +71,8 @@ def _ws_flight():
 
 
 FAMILIES = ["HTTP/1.1 pipeline of three requests", "HTTP/1.1 chunked POST then EOF (half-close)", "HTTP/2 two streams", "WebSocket session", "HTTP/1 garbage after a request",
-            "HTTP/1.0 request", "slow request then reset"]
+            "HTTP/1.0 request", "slow request then reset", "HTTP/2 request and PING while the client is not reading for 2 s, read_timeout 1 s",
+            "HTTP/1.1 pipeline behind a request that takes 2.5 s, read_timeout 1 s"]
 
 
 def _data(fi: int):
@@ -85,11 +88,35 @@ def _data(fi: int):
         return h1_request("GET", b"/ok", [HOSTH]) + b"\x00GARBAGE /x\r\n\r\n"
     if fi == 5:
         return h1_request("GET", b"/ten", [HOSTH], version=b"1.0")
+    if fi == 7:
+        c = H2Client()
+        c.request(1, b"GET", b"/slow", end_stream=True)  # answered after 1 s: the write parked first is the reader's own (SETTINGS/PING acknowledgement)
+        c.conn.ping(b"12345678")
+        return c.take()
+    if fi == 8:
+        return h1_request("GET", b"/a", [HOSTH]) + h1_request("GET", b"/slower", [HOSTH]) + h1_request("GET", b"/c", [HOSTH]) + h1_request("GET", b"/d", [HOSTH, (b"Connection", b"close")])
     return h1_request("GET", b"/slow", [HOSTH])
 
 
+def _config(fi: int):
+    if fi in (7, 8):
+        return make_config(keep_alive_timeout=5.0, read_timeout=1)
+    return make_config(keep_alive_timeout=5.0)
+
+
+def _run(fi: int, flavour: str, factory, acts):
+    if fi == 7:
+        # every choice is pinned; the trio run with a parked write does not terminate under the tracer
+        # (same limit as C08's back-pressure sessions), so this family is executed un-traced
+        from vf.rt import NoTracing
+
+        with NoTracing():
+            return run_session(flavour, factory, _config(fi), acts, alpn="h2")
+    return run_session(flavour, factory, _config(fi), acts, alpn="h2" if fi == 2 else None)
+
+
 _LEN = [len(_data(i)) for i in range(len(FAMILIES))]
-STRIDE = 8 if QUICK else 1
+STRIDE = 12 if QUICK else 1
 
 
 def _norm(obs, factory):
@@ -112,7 +139,7 @@ def _norm(obs, factory):
     witnesses=[{"fi": 0, "cut": 2, "end": 0}, {"fi": 2, "cut": 3, "end": 1}, {"fi": 3, "cut": 2, "end": 2}],
     budget={"quick": 300, "thorough": 1800},
     per_path=240,
-    bounds="7 session families (HTTP/1.1 pipeline incl. a slow request and Connection: close, chunked upload + half-close, HTTP/2 with two streams, WebSocket session, garbage after a request, HTTP/1.0, slow request then reset) x every two-way split of the client's first flight (quick: every 8th offset) x ending {keep waiting 7 s, EOF after 0.5 s, reset after 0.5 s, half-close instead of the rest of the flight, reset instead of the rest}; identical actions on both workers",
+    bounds="9 session families (HTTP/1.1 pipeline incl. a slow request and Connection: close, chunked upload + half-close, HTTP/2 with two streams, WebSocket session, garbage after a request, HTTP/1.0, slow request then reset, HTTP/2 request + PING against a client that stops reading for longer than read_timeout, HTTP/1.1 pipeline parked behind a request that takes longer than read_timeout) x every two-way split of the client's first flight (quick: every 12th offset) x ending {keep waiting 7 s, EOF after 0.5 s, reset after 0.5 s, half-close instead of the rest of the flight, reset instead of the rest}; identical actions on both workers",
     encodes=["hypercorn/asyncio/tcp_server.py::TCPServer.run", "hypercorn/trio/tcp_server.py::TCPServer.run", "hypercorn/asyncio/tcp_server.py::TCPServer.protocol_send", "hypercorn/trio/tcp_server.py::TCPServer.protocol_send",
              "hypercorn/asyncio/task_group.py::TaskGroup.spawn_app", "hypercorn/trio/task_group.py::TaskGroup.spawn_app", "hypercorn/asyncio/worker_context.py::EventWrapper.wait", "hypercorn/trio/worker_context.py::EventWrapper.wait"],
     stubs=["tier C runtimes (virtual asyncio loop / trio MockClock)", "wall clock pinned so that the date header is identical"],
@@ -130,6 +157,8 @@ def worker_differential(fi: int, cut: int, end: int) -> bool:
     if cut > len(data):
         return done(True, skipped="cut beyond the first flight")
     acts = []
+    if fi == 7:
+        acts.append(("pause",))
     if cut:
         acts.append(("feed", data[:cut]))
         acts.append(("sleep", 0.25))
@@ -140,7 +169,7 @@ def worker_differential(fi: int, cut: int, end: int) -> bool:
         results = {}
         for flavour in ("asyncio", "trio"):
             factory = _factory()
-            obs = run_session(flavour, factory, make_config(keep_alive_timeout=5.0), acts, alpn="h2" if fi == 2 else None)
+            obs = _run(fi, flavour, factory, acts)
             results[flavour] = _norm(obs, factory)
         a, t = results["asyncio"], results["trio"]
         why = ""
@@ -159,6 +188,9 @@ def worker_differential(fi: int, cut: int, end: int) -> bool:
     if fi == 6:
         acts.append(("sleep", 0.5))
         acts.append(("reset",))
+    if fi == 7:
+        acts.append(("sleep", 2.0))
+        acts.append(("resume",))
     acts.append(("sleep", 0.5))
     if end == 1:
         acts.append(("eof",))
@@ -168,7 +200,7 @@ def worker_differential(fi: int, cut: int, end: int) -> bool:
     results = {}
     for flavour in ("asyncio", "trio"):
         factory = _factory()
-        obs = run_session(flavour, factory, make_config(keep_alive_timeout=5.0), acts, alpn="h2" if fi == 2 else None)
+        obs = _run(fi, flavour, factory, acts)
         results[flavour] = _norm(obs, factory)
     a, t = results["asyncio"], results["trio"]
     why = ""
